@@ -38,7 +38,7 @@ def demo_cmds(ddir):
         for cut in (" 2>&1", " | ", "   #", " ; ", "  (", " && ", "`"):
             c = c.split(cut)[0]
         c = c.rstrip("\\ ;").strip()
-        if "./" in c and c not in cmds:
+        if "./" in c and "_demo" not in c and c not in cmds:
             cmds.append(c)
     return cmds
 
